@@ -28,7 +28,7 @@ REQUIRED_CLASSES = {"all": ["op:update", "op:update_bundle", "op:add_bundle:ok",
                             "op:add_bundle:refused_duplicate", "op:add_bundle:refused_no_id", "op:bundle:ok",
                             "op:bundle:refused_duplicate", "op:flatten", "cross_environment", "update:merged_bundle"]}
 
-SHRINK_CAP = {"quick": 250, "thorough": 1500}
+SHRINK_CAP = {"quick": 150, "thorough": 1500}
 BIDS = [{"ns": "http://a/", "local": "b1", "prefix": "ex", "as": "qn"}, {"ns": "http://a/", "local": "b2", "prefix": "p", "as": "qn"},
         {"ns": "http://b/ns#", "local": "b1", "prefix": "ex", "as": "qn"}]
 
